@@ -60,7 +60,8 @@ def is_call(t, *names):
     if not names:
         return True
     p = t[1]
-    return any(p == n or p.endswith(n) for n in names)
+    q = mir.norm_path(p)
+    return any(p == n or p.endswith(n) or q.endswith(n) for n in names)
 
 
 def call_path(t):
@@ -69,6 +70,24 @@ def call_path(t):
 
 def call_args(t):
     return t[3]
+
+
+def ev_is(e, *names):
+    """call event whose callee (raw or generic-stripped path) ends with one of names"""
+    return e.kind == "call" and any(e.path.endswith(n) or e.name.endswith(n) for n in names)
+
+
+def flows_from(path, term, pred):
+    """does `term` carry a value satisfying pred, directly or through a store into memory reachable
+    from one of its sub-terms (the vec![x] / Box::new idiom writes x through a raw pointer)?"""
+    if mentions(term, pred):
+        return True
+    subs = [s for s in subterms(term) if s[0] == "call"]
+    for e in path.events:
+        if e.kind == "store" and mentions(e.value, pred):
+            if any(mentions(e.place, lambda s, u=u: s == u) for u in subs):
+                return True
+    return False
 
 
 def find_calls(t, *names):
@@ -282,3 +301,87 @@ def fmt_template(site):
                 opts += "." + str(p["precision"])
             s += "{%d%s}" % (p["arg"], (":" + opts + spec_) if (opts or spec_) else "")
     return s
+
+
+def errprop(ctx, fn, paths, body, rule="D3-ERRPROP", no_effects_after_error=("::update", "::finalize"), floor=1, skip=()):
+    """Every Result produced by a call reaches Try::branch whose Break edge returns the residual (or is returned)."""
+    n = 0
+    seen = set()
+    for p in paths:
+        for idx, e in enumerate(p.events):
+            if e.kind != "call":
+                continue
+            dty = e.dest["ty"]
+            if not (dty.startswith("std::result::Result<") or dty.startswith("std::option::Option<std::result::Result<")):
+                continue
+            if "Try>::branch" in e.path or "FromResidual" in e.path:
+                continue
+            if e.diverges or any(e.path.endswith(x) or x in e.path for x in skip):
+                continue
+            n += 1
+            later = p.events[idx + 1:]
+            R = e.term
+            uses = [x for x in later if x.kind == "call" and any(mentions(a, lambda s: s == R) for a in x.args)]
+            returned = p.end[0] == "return" and mentions(p.end[1], lambda s: s == R)
+            br = [x for x in uses if "Try>::branch" in x.path]
+            sink = [x for x in uses if x.path.split("::")[-1] in ("ok", "unwrap_or", "unwrap_or_default", "unwrap_or_else", "is_ok", "is_err", "err", "unwrap", "expect", "flatten", "filter_map", "map_while")
+                    and ("Result" in x.path or "Option" in x.path or "Iterator" in x.path)]
+            inst = "%s@%s" % (e.path.split("::")[-1], "result")
+            key = (e.bb,)
+            opt = dty.startswith("std::option::Option<")
+
+            def is_result_term(t):
+                if not opt:
+                    return t == R
+                return isinstance(t, tuple) and t[0] == "field" and t[1] == ("downcast", R, "Some")
+            condd = [c for c in later if c.kind == "cond" and c.term[0] == "discr" and is_result_term(c.term[1])]
+            if opt and any(c.kind == "cond" and c.term == ("discr", R) and c.fact == ("eq", 0) for c in later):
+                continue  # iterator exhausted: there is no Result to inspect
+            if sink:
+                ctx.violation(rule, fn, "call=%s" % e.path, "Result of %s is discarded through %s" % (e.path, sink[0].path), body.span_of(e.bb))
+                continue
+            if br:
+                B = br[0].term
+                brk = [c for c in later if c.kind == "cond" and c.term == ("discr", B)]
+                if brk and brk[0].fact == ("eq", 1):
+                    after = [x for x in later if x.kind == "call" and x.bb != brk[0].bb and later.index(x) > later.index(brk[0])]
+                    okres = p.end[0] == "return" and bool(find_calls(p.end[1], "from_residual"))
+                    feeding = [x for x in after if any(x.path.endswith(sfx) for sfx in no_effects_after_error)]
+                    if key not in seen:
+                        seen.add(key)
+                    ctx.check(okres and not feeding, rule, fn, "call=%s:err-edge" % e.path,
+                              "Err edge returns the converted error, nothing hashed after it",
+                              "on the Err edge of %s the function %s" % (e.path, "continues hashing" if feeding else "does not return the error"),
+                              body.span_of(e.bb))
+                continue
+            if condd:
+                # matched by hand: the Err arm must return an error
+                c0 = condd[0]
+                is_err_edge = c0.fact == ("eq", 1) or (c0.fact[0] == "ne" and 0 in c0.fact[1] and 1 not in c0.fact[1])
+                if is_err_edge:
+                    okres = p.end[0] == "return" and (unwrap_err(p.end[1]) is not None or bool(find_calls(p.end[1], "from_residual")))
+                    ctx.check(okres, rule, fn, "call=%s:err-arm" % e.path, "hand-written Err arm returns an error",
+                              "the Err arm of the match on the result of %s does not return an error (path ends: %s)" % (e.path, p.end[0]),
+                              body.span_of(c0.bb))
+                continue
+            if returned:
+                continue
+            if p.end[0] in ("back", "return") and not uses:
+                # the path ends without the result ever being inspected
+                ctx.violation(rule, fn, "call=%s" % e.path, "Result of %s is never inspected on a path (dropped)" % e.path, body.span_of(e.bb))
+    ctx.floor(rule, fn, "result-producing call instances", n, floor)
+
+
+
+
+def resolve_promoted(ctx, t):
+    """value returned by a promoted constant body"""
+    v = const_of(t)
+    if isinstance(v, tuple) and v and v[0] == "promoted":
+        key = "%s::promoted[%d]" % (v[1], v[2])
+        ps = ctx.paths(key)
+        if ps:
+            return ps[0].end[1]
+    return t
+
+
